@@ -729,6 +729,10 @@ class Peer:
                     message = _NOP
                     await asyncio.sleep(0)
 
+                # RFC 4271 8.2.2 / RFC 6608: an OPEN is not expected once the session is established
+                if message.TYPE == Open.TYPE:
+                    raise Notify(5, 3, 'OPEN message received in the ESTABLISHED state')
+
                 # Keepalive handling
                 self.recv_timer.check_ka(message)
                 await send_ka.send_if_needed()
